@@ -3,6 +3,7 @@ CONSTANTS MaxCalls = 0
   AllowDestroy = TRUE
   AllowCrash = FALSE
   FixEatKill = TRUE
+  ReapOnRefusal = TRUE
   FixDonePrio = TRUE
 SPECIFICATION TSpec
 CONSTRAINT Mark
